@@ -84,12 +84,12 @@ type Exit struct {
 
 type Run struct {
 	curBound T // term of the bound method value being called (for result records)
-	e     *Engine
-	fn    *ssa.Function
-	blk   *Block
-	exits []*Exit
-	work  []*State
-	paths int
+	e        *Engine
+	fn       *ssa.Function
+	blk      *Block
+	exits    []*Exit
+	work     []*State
+	paths    int
 }
 
 func (e *Engine) posOf(in ssa.Instruction) string {
@@ -445,7 +445,7 @@ func (r *Run) havocLoop(st *State, fr *Frame, li *LoopInfo) {
 	cellSeen := map[*Cell]bool{}
 	regions := map[string]bool{}
 	all := false
-	whole := map[*Cell]bool{}   // cells assigned as a whole (not just through an element)
+	whole := map[*Cell]bool{}        // cells assigned as a whole (not just through an element)
 	elemRegions := map[string]bool{} // slice fields written only through elements
 	elemMode := false
 	addCell := func(c *Cell) {
